@@ -1,7 +1,8 @@
 (* C13 — every persisted/wire value round-trips; size bounds hold.
    Statements only: each theorem is closed by [exact <lemma>]; proofs live in Proofs/. *)
 From DB Require Import Base.Bytes Base.CRC32 Model.CodecEntry Proofs.CodecEntry Model.Frame Proofs.Frame
-  Model.CodecProto Proofs.CodecProto Model.CodecUpdate Proofs.CodecUpdate.
+  Model.CodecProto Proofs.CodecProto Model.CodecUpdate Proofs.CodecUpdate
+  Model.CodecPayload Proofs.CodecPayload.
 Open Scope N_scope.
 
 (* raftpb.Entry (colfer codec): decode (encode e) = e, consuming exactly the encoding *)
@@ -130,6 +131,55 @@ Print Assumptions snapshot_roundtrip.
 Theorem snapshot_size_exact : forall s, nlen (sn_encode s) = sn_size s.
 Proof. exact sn_size_exact_proved. Qed.
 Print Assumptions snapshot_size_exact.
+
+Theorem entrybatch_roundtrip : forall es, Forall wf_entry es -> eb_decode (eb_encode es) = Some es.
+Proof. exact eb_roundtrip_proved. Qed.
+Print Assumptions entrybatch_roundtrip.
+Theorem entrybatch_size_exact : forall es, nlen (eb_encode es) = eb_size es.
+Proof. exact eb_size_exact_proved. Qed.
+Print Assumptions entrybatch_size_exact.
+(* EntryBatch.Size() <= EntryBatch.SizeUpperLimit() = 16 + sum (e.SizeUpperLimit() + 16) *)
+Theorem entrybatch_size_le_upper : forall es, Forall wf_entry es -> eb_size es <= eb_size_upper es.
+Proof. exact eb_size_le_upper_proved. Qed.
+Print Assumptions entrybatch_size_le_upper.
+
+Theorem message_roundtrip : forall m, wf_msg m -> msg_decode (msg_encode m) = Some m.
+Proof. exact msg_roundtrip_proved. Qed.
+Print Assumptions message_roundtrip.
+Theorem message_size_exact : forall m, nlen (msg_encode m) = msg_size m.
+Proof. exact msg_size_exact_proved. Qed.
+Print Assumptions message_size_exact.
+Theorem message_size_le_upper : forall m, wf_msg m -> msg_size m <= msg_size_upper m.
+Proof. exact msg_size_le_upper_proved. Qed.
+Print Assumptions message_size_le_upper.
+
+Theorem messagebatch_roundtrip : forall b, wf_bt b -> bt_decode (bt_encode b) = Some b.
+Proof. exact bt_roundtrip_proved. Qed.
+Print Assumptions messagebatch_roundtrip.
+Theorem messagebatch_size_exact : forall b, nlen (bt_encode b) = bt_size b.
+Proof. exact bt_size_exact_proved. Qed.
+Print Assumptions messagebatch_size_exact.
+(* the buffer SendMessageBatch allocates (SizeUpperLimit) is never overrun by MarshalTo *)
+Theorem messagebatch_size_le_upper : forall b, wf_bt b -> bt_size b <= bt_size_upper b.
+Proof. exact bt_size_le_upper_proved. Qed.
+Print Assumptions messagebatch_size_le_upper.
+
+(* ConfigChange, SnapshotHeader, RaftDataStatus, Bootstrap and Chunk are modelled
+   (Model/CodecProto.v) and compared byte for byte with the implementation; their
+   round-trip lemmas are not proved yet (same shape as the ones above). *)
+
+(* ---------------------------------------------------------------------------
+   entry payload encoding (internal/rsm/encoded.go); compression is a Section
+   variable pair with the contract decompress (compress x) = Some x and the snappy
+   block-format fact that a block starts with uvarint(len) *)
+Theorem payload_roundtrip :
+  forall (compress : bytes -> bytes) (decompress : bytes -> option bytes),
+  (forall x, decompress (compress x) = Some x) ->
+  (forall x, exists rest, compress x = uvarint (nlen x) ++ rest) ->
+  forall ct cmd enc, cmd <> [] -> nlen cmd < 2 ^ 64 ->
+  get_encoded compress ct cmd = Some enc -> get_decoded decompress enc = POk cmd.
+Proof. exact payload_roundtrip_proved. Qed.
+Print Assumptions payload_roundtrip.
 
 (* ---------------------------------------------------------------------------
    the Tan record form of Update (raftpb/update.go) *)
